@@ -188,8 +188,9 @@ async def check_case(case, rec, ctx):
         check_serve_health(PROPERTY, r1, 1)
         ref_rc = H.returncode_class(r1.result.returncode)
         rec.event("reference:" + ref_rc)
-        from props.c01 import _succeeded_with_detached_input
+        from props.c01 import _stale_claim_rejections, _succeeded_with_detached_input
         case["_ref_orphan"] = bool(_succeeded_with_detached_input(r1.result.tables))
+        case["_ref_stale_claim"] = bool(_stale_claim_rejections(r1))
         ref_files = non_user_files(r1.after, user_files)
         ref_graph = H.project_graph(r1.result.tables) + H.outcome_facts(r1.result.tables)
         # When did the job loop end? (cleanup window = images after the "Ran N job(s)" report)
@@ -250,6 +251,13 @@ async def check_image(case, tag, image_dir, stage1, ref_rc, ref_files, ref_graph
             # build rescans and finds it pending, which is what a build from scratch says too.
             sig = (f"{PROPERTY}/uninterrupted-build-keeps-succeeded-consumer-of-dropped-producer-"
                    "restart-does-not")
+        if case.get("_ref_stale_claim") and "FAILED" in ref_rc and "FAILED" not in rc:
+            # Root-cause refinement (the C01 finding seen from here): the uninterrupted build
+            # rejects a declaration because of the claim of a step that no plan defines any
+            # more; after the crash the interrupted plans are reset, their stale products are
+            # detached, and the restarted build accepts the declaration, as a scratch build does.
+            sig = (f"{PROPERTY}/uninterrupted-build-rejects-declaration-over-stale-claim-restart-"
+                   "does-not")
         raise Violation(
             sig,
             f"{where}: restarted build ended {rc}, the uninterrupted one {ref_rc}; "
